@@ -292,6 +292,24 @@ fn main() {
                 let own = (sv == 4 && fv == 4) || (sv == 6 && fv == 6);
                 cx.out.case("sig", &[sv.to_string(), sv.to_string(), format!("2:0:-,33:0:{fv}")], &["issuer-fp-version".into(), sv.to_string(), fv.to_string()], &(acc as u8).to_string(), Some(own || !acc), "issuer-fingerprint-version");
             }
+            // ... a second issuer fingerprint of another version beside the signer's own (version 5 has the length of version 6)
+            {
+                use pgp::types::KeyDetails;
+                let own_fp = key.fingerprint();
+                let v5 = pgp::types::Fingerprint::new(KeyVersion::V5, &[0x55u8; 32]);
+                for (fv, extra) in [(4u8, Some(a4.fingerprint())), (6u8, Some(a6.fingerprint())), (5u8, v5.ok())] {
+                    let Some(extra) = extra else { continue; };
+                    let (Ok(sp1), Ok(sp2)) = (Subpacket::regular(SubpacketData::IssuerFingerprint(own_fp.clone())), Subpacket::regular(SubpacketData::IssuerFingerprint(extra))) else { continue; };
+                    for order in [false, true] {
+                        let sps = if order { vec![sp2.clone(), sp1.clone()] } else { vec![sp1.clone(), sp2.clone()] };
+                        let Some(cfg) = base(sv, sps) else { continue; };
+                        let forged = forge(&cfg, key, data);
+                        let acc = forged.as_ref().map(|s| guarded(|| s.verify(key, &data[..]).is_ok()).unwrap_or(false)).unwrap_or(false);
+                        let spec = if order { format!("2:0:-,33:0:{fv},33:0:{sv}") } else { format!("2:0:-,33:0:{sv},33:0:{fv}") };
+                        cx.out.case("sig", &[sv.to_string(), sv.to_string(), spec], &["issuer-fp-version-second".into(), sv.to_string(), fv.to_string(), (order as u8).to_string()], &(acc as u8).to_string(), Some(fv == sv || !acc), "issuer-fingerprint-version-second");
+                    }
+                }
+            }
         }
     }
 
